@@ -4,7 +4,7 @@ of Consts.v the property depends on, the correspondence runner, and the trusted 
 TRUSTED_COMMON = [
     "Coq 8.16.1 kernel incl. its bytecode VM (vm_compute); no native_compute; no axioms declared (Print Assumptions: Closed under the global context)",
     "the hand-written Gallina model of the Rust functions (tied to /repo by the correspondence check on every run, not verified against rustc)",
-    "tools/extract_consts.py (regex translator of constants and inline literals into coq/Consts.v), tools/extract_layouts.py (digest field sequences into coq/Layouts.v) and tools/extract_purity.py (hidden-state / unsafe / ambient-input scan of the files the property reaches into coq/Purity.v), all re-run on every check",
+    "tools/extract_consts.py (regex translator of constants and inline literals into coq/Consts.v), tools/extract_layouts.py (digest field sequences into coq/Layouts.v) and tools/extract_purity.py (hidden-state / unsafe / ambient-input scan of the files the property reaches into coq/Purity.v), tools/extract_steps.py + tools/rustexpr.py (Rust-subset to Gallina translation of the cipher loop bodies and the RC4 output step into coq/Steps.v), all re-run on every check",
     "the Rust harness /verif/harness (generators, catch_unwind, case printer) and the guarded hooks src/verif_hooks.rs",
     "Rust integer/slice semantics as rendered in the model (wrapping ops, debug overflow checks, bounds checks)",
 ]
@@ -212,3 +212,11 @@ PROPS = {
 # (tools/extract_purity.py + proofs/Purity.v)
 for _k, _p in PROPS.items():
     _p["extra_files"] = list(_p.get("extra_files", [])) + ["proofs/purity/%s.v" % _k]
+
+# loop bodies translated from the source on every run (tools/extract_steps.py + proofs/steps/*.v)
+for _k in ("C03", "C04"):
+    PROPS[_k]["extra_files"] = PROPS[_k]["extra_files"] + ["proofs/ConstsSrp.v"]
+    PROPS[_k]["consts"] = list(PROPS[_k]["consts"]) + [c for c in ("large_safe_prime_length", "n_be", "sha1_hash_length", "proof_length", "private_key_length", "salt_length", "s_length", "session_key_length", "reconnect_challenge_data_length", "public_key_length", "n_le") if c not in PROPS[_k]["consts"]]
+STEP_FILES = {"C07": ["Vanilla"], "C08": ["Tbc"], "C09": ["Rc4"], "C11": ["Vanilla", "Tbc"], "C18": ["Rc4"]}
+for _k, _fs in STEP_FILES.items():
+    PROPS[_k]["extra_files"] = PROPS[_k]["extra_files"] + ["proofs/steps/%s.v" % f for f in _fs]
